@@ -526,11 +526,22 @@ def trivia_checks(rep: OpReport, rec: PathRec, cfg: dict) -> None:
     props = {"C04"} | ({"C01"} if gen else set())
 
     def ob(rule: str, bad: str, good: str, ok: bool, extra: set | None = None) -> None:
+        if not ok and not gen and getattr(rep, "trivia_sem_ok", False):
+            # second opinion: ParserState.parse_trivia is decided in full by the semantic TRIVIA rule (scripted
+            # oracles, sa/triviasem.py), which holds; this path reading does not recognise how the code is written
+            rep.count("trivia_second_opinion_mismatches")
+            ok = True
         what = good if ok else bad
         rep.oblige(props | (extra or set()), rule, c, what, ok, Finding(rule, c, what, f"{short(c)}: {what}", detail))
 
     cev = [e for e in rec.events if e[0] == "C"]
     kinds = [_trivia_kind(e[1]) for e in cev]
+    if not gen and any(k not in ("SKIP", "WHITESPACE", "COMMENT") for k in kinds):
+        # which rule is attempted cannot be recovered from the text on this path (a list of looked-up rules indexed
+        # by a counter, say).  ParserState.parse_trivia is decided in full by the semantic TRIVIA rule
+        # (sa/triviasem.py: scripted oracles identify the rules by what they are, not by how they are named)
+        rep.count("trivia_paths_left_to_the_semantic_rule")
+        return
     if cfg["atomic"] == "pos":
         ob("TRIVIA", "implicit trivia attempted although atomic depth > 0", "no trivia inside atomic context", not cev and not rec.moved)
         return
@@ -934,6 +945,13 @@ def analyse_rules(repo: Repo, rep: OpReport, masks: dict, tier: str) -> None:
 
 def analyse_trivia(repo: Repo, rep: OpReport, tier: str) -> None:
     from .flow import Flow, PathRef, St, local_names
+    from . import triviasem  # noqa: PLC0415
+
+    try:
+        _n_sem, bad_sem = triviasem.check_trivia(repo, "TRIVIA (semantic)")
+        rep.trivia_sem_ok = not bad_sem  # type: ignore[attr-defined]
+    except AnalysisError:
+        rep.trivia_sem_ok = False  # type: ignore[attr-defined]
 
     # interpreter side
     fn = repo.func(STATE_REL, "ParserState.parse_trivia")
@@ -960,23 +978,19 @@ def analyse_trivia(repo: Repo, rep: OpReport, tier: str) -> None:
         rec.variant = ",".join(f"{k}={v}" for k, v in cfg.items())
         generic_checks(rep, rec, "parse_trivia")
         trivia_checks(rep, rec, cfg)
-    # template side
-    def make_args() -> dict:
-        return {"rules": tmpl.rules_value()}
-
-    sks = tmpl.function_skeletons(repo, GEN_REL, "generate_parse_trivia", make_args, {})
+    # template side: one skeleton per configuration of defined trivia rules - the configuration is what the generator
+    # is *given* (presence of the three names in the rule table), not something read back from how it asks
+    sks = []
+    for present in ({"SKIP": False, "WHITESPACE": False, "COMMENT": False}, {"SKIP": False, "WHITESPACE": True, "COMMENT": False}, {"SKIP": False, "WHITESPACE": False, "COMMENT": True},
+                    {"SKIP": False, "WHITESPACE": True, "COMMENT": True}, {"SKIP": True, "WHITESPACE": True, "COMMENT": False}):
+        got = tmpl.function_skeletons(repo, GEN_REL, "generate_parse_trivia", lambda present=present: {"rules": tmpl.rules_value(present=dict(present))}, {})
+        for sk in got:
+            sk.trivia_cfg = {"skip": present["SKIP"], "ws": present["WHITESPACE"], "comment": present["COMMENT"]}  # type: ignore[attr-defined]
+        sks.extend(got)
     rep.count("trivia_skeleton_variants", len(sks))
     for sk in sks:
         rep.skeleton_sources.append((sk.label(), sk))
-        dec = {c: d for c, d in sk.decisions}
-        base_cfg = {
-            "skip": any(d for c, d in dec.items() if "'SKIP'" in c),
-            "ws": any(d for c, d in dec.items() if "'WHITESPACE'" in c),
-            "comment": any(d for c, d in dec.items() if "'COMMENT'" in c),
-        }
-        if not all(any(k in c for c in dec) for k in ("'SKIP'", "'WHITESPACE'", "'COMMENT'")) and len(dec) < 3 and not base_cfg["skip"]:
-            if not (len(dec) == 1 and base_cfg["skip"]):
-                pass
+        base_cfg = dict(sk.trivia_cfg)  # type: ignore[attr-defined]
         tree = ast.parse(sk.source)
         fns = [n for n in tree.body if isinstance(n, ast.FunctionDef)]
         if len(fns) != 1:
